@@ -45,7 +45,10 @@ SCHEMA = {
                          'referenceStartPosition': INT, 'referenceEndPosition': INT, 'reverseStrand': BOOL, 'confidence': REAL,
                          'cigarString': STR, 'queryLength': INT, 'referenceLength': INT, 'alignedPairs': LIST(OBJ('BenchmarkAlignedPair'))},
     'AlignmentRowComparison': {'type': ENUM('AlignmentRowComparisonResultType'), 'identity': REAL, 'alignment1Coverage': REAL,
-                               'alignment2Coverage': REAL, 'alignment1': OBJ('BionanoAlignment'), 'alignment2': OBJ('BionanoAlignment')},
+                               'alignment2Coverage': REAL, 'alignment1': OBJ('BionanoAlignment'), 'alignment2': OBJ('BionanoAlignment'),
+                               'alignment1ExclusivePairs': LIST(OBJ('BenchmarkAlignedPair', 'BenchmarkAlignedPairWithDistance')),
+                               'alignment2ExclusivePairs': LIST(OBJ('BenchmarkAlignedPair', 'BenchmarkAlignedPairWithDistance'))},
+    'AlignmentRowComparer': {'combineMultipleQuerySources': BOOL},
     'AlignmentComparison': {'avgOverlappingAlignment1Coverage': REAL, 'avgOverlappingAlignment2Coverage': REAL, 'avgOverlappingIdentity': REAL,
                             'overlapping': INT, 'nonOverlapping': INT, 'firstOnly': INT, 'secondOnly': INT,
                             'rows': LIST(OBJ('AlignmentRowComparison'))},
